@@ -318,6 +318,10 @@ def normalize_matrix3(matrix):
     row2 = renorm(vdiff(e_2, renorm(row1, norm=scal(e_2, row1))))
     row3 = vect(row1, row2)
     norm_matrix = matrix.copy()
+    if abs(scal(rows[i_row1], rows[i_row1]) - 1.0) > 1e-12:
+        # (also when the vector was given as a column: the matrix is
+        # transposed back by the caller and must be orthonormal then)
+        norm_matrix[3 * i_row1:3 * i_row1 + 3] = row1
     norm_matrix[3 * i_row2:3 * i_row2 + 3] = row2
     norm_matrix[3 * i_row3:3 * i_row3 + 3] = row3
     return norm_matrix
